@@ -1,6 +1,6 @@
 """Per-property pipelines. Each returns the process exit code."""
-import json, os
-from vcheck import Broken, dec, describe
+import json, os, re, subprocess
+from vcheck import Broken, dec, describe, crash_signature
 
 def engine_traces(run, profile, n, length=0, states="both", label=None, extra=None):
     """Random seeded histories of the location API on the real code, validated by TLC."""
@@ -353,6 +353,142 @@ def c15(run):
         "scheduled rules Engine holds (every existing scheduled rule registered; strictly nothing else) and what each tick evaluated, "
         "executed and removed")
 
+def cron_stage(run):
+    """In-memory cron: Cron.tla model-checked (with the two repaired defects as must-fail
+    variants), then timed runs of the real service validated against it."""
+    run.model_check("CronMC.tla", "MC_cron.cfg")
+    for cfg, needle in (("MC_cron_untracked.cfg", "NoStaleEntry is violated"), ("MC_cron_losttimer.cfg", "TimerCovers is violated")):
+        rc, out, dt = run.tlc("CronMC.tla", cfg, label=cfg)
+        if needle not in out:
+            raise Broken("CronMC.tla %s: expected '%s'\n%s" % (cfg, needle, out[-600:]))
+    drv = run.build("crondrv")
+    procs = 8 if run.tier == "quick" else 16
+    per = 8 if run.tier == "quick" else 40
+    outs = [os.path.join(run.tmp, "cron-%d.ndjson" % i) for i in range(procs)]
+    import concurrent.futures as cf
+    with cf.ThreadPoolExecutor(procs) as ex:
+        rs = list(ex.map(lambda i: run.run_bin(drv, ["-seed", str(run.seed * 100 + i), "-n", str(per), "-out", outs[i]], timeout=3000), range(procs)))
+    hooks = sum(json.loads(r.stdout.strip().split("\n")[-1])["hook_events"] for r in rs)
+    trace = os.path.join(run.tmp, "cron.ndjson")
+    with open(trace, "w") as f:
+        for o in outs:
+            f.write(open(o).read())
+    rejected, _ = run.validate("CronTrace.tla", "CronTrace.cfg", trace, "cron")
+    with open(trace) as f:
+        lines = f.read().split("\n")
+    for ln in rejected:
+        sub = []
+        k = ln
+        while k >= 1:
+            sub.insert(0, json.loads(lines[k - 1]))
+            if sub[0]["ev"] == "reset":
+                break
+            k -= 1
+        e = sub[-1]
+        what = "in-memory cron, scenario %s seed %s: line %d %s is not a step of Cron.tla; before it: %s" % (
+            sub[0].get("kind"), sub[0].get("seed"), len(sub), json.dumps(e)[:300],
+            " ".join("%s(%s%s)" % (x["ev"], x.get("id", ""), "#%d" % x["g"] if "g" in x else "") for x in sub[1:-1][-14:]))
+        run.violation(what, {"trace": sub}, stage="cron")
+    run.cov["cron_hook_events"] = hooks
+    for ln in (2, 3, 4):
+        if ln - 1 < len(lines) and lines[ln - 1]:
+            run.sample(json.loads(lines[ln - 1]))
+    run.assumptions += ["in-memory cron: one-shot delays 15-500 ms, recurring jobs every second (functions lasting 0-450 ms), 2 clients on "
+                        "disjoint ids plus a controller (suspend/resume/pause); scenario families remhead, remrunning (Rem / replace while the "
+                        "function runs), random, suspend; all times are readings of one clock, so 'not before due' is exact; the only margin is "
+                        "at the end of a scenario (1.5 s quiet, nothing may be overdue by more than 1 s)"]
+
+def crolt_stage(run):
+    """Bolt-backed cron (crolt, package main): Crolt.tla model-checked (two repaired defects as must-fail variants), then
+    histories of the real service, driven by an in-package test placed with `go test -overlay`, validated against it."""
+    run.model_check("CroltMC.tla", "MC_crolt.cfg")
+    for cfg, needle in (("MC_crolt_nonatomic.cfg", "BucketsAgree is violated"), ("MC_crolt_negjitter.cfg", "is violated")):
+        rc, out, dt = run.tlc("CroltMC.tla", cfg, label=cfg)
+        if needle not in out:
+            raise Broken("CroltMC.tla %s: expected '%s'\n%s" % (cfg, needle, out[-600:]))
+    from vcheck import REPO, HARNESS, GOENV
+    ov = os.path.join(run.tmp, "crolt-overlay.json")
+    json.dump({"Replace": {os.path.join(REPO, "crolt", "zz_verif_crolt_test.go"): os.path.join(HARNESS, "overlay", "crolt_verif_test.go.txt")}}, open(ov, "w"))
+    procs = 6 if run.tier == "quick" else 16
+    per = 8 if run.tier == "quick" else 40
+    outs = [os.path.join(run.tmp, "crolt-%d.ndjson" % i) for i in range(procs)]
+    # build the test binary once, run it several times
+    tb = os.path.join(run.tmp, "crolt.test")
+    p = subprocess.run(["go", "test", "-c", "-tags", "verif", "-vet=off", "-overlay", ov, "-o", tb, "./crolt/"], cwd=REPO, env=GOENV,
+                       stdout=subprocess.PIPE, stderr=subprocess.STDOUT, text=True)
+    if p.returncode != 0 or not os.path.exists(tb):
+        raise Broken("go test -c ./crolt failed:\n" + p.stdout[-3000:])
+    def one(i):
+        e = dict(GOENV, VERIF_OUT=outs[i], VERIF_SEED=str(run.seed * 100 + i), VERIF_N=str(per), VERIF_TMP=run.tmp)
+        q = subprocess.run([tb, "-test.run", "TestVerifCrolt", "-test.count=1", "-test.timeout", "50m"], cwd=run.tmp, env=e,
+                           stdout=subprocess.PIPE, stderr=subprocess.STDOUT, text=True)
+        m = re.search(r"VERIF-CROLT (\{.*\})", q.stdout)
+        if q.returncode != 0 or not m:
+            sig = crash_signature(q.stdout)
+            if sig is not None:
+                return ("crash", sig, q.stdout)
+            raise Broken("crolt driver failed (%d):\n%s" % (q.returncode, q.stdout[-3000:]))
+        return ("ok", json.loads(m.group(1)), "")
+    import concurrent.futures as cf
+    with cf.ThreadPoolExecutor(procs) as ex:
+        rs = list(ex.map(one, range(procs)))
+    for kind, info, outp in rs:
+        if kind == "crash":
+            run.violation("process crash in crolt: " + info, {"stderr_head": outp[:3000]}, stage="crolt")
+    trace = os.path.join(run.tmp, "crolt.ndjson")
+    with open(trace, "w") as f:
+        for o in outs:
+            if os.path.exists(o):
+                f.write(open(o).read())
+    rejected, _ = run.validate("CroltTrace.tla", "CroltTrace.cfg", trace, "crolt")
+    with open(trace) as f:
+        lines = f.read().split("\n")
+    brief = lambda x: ("%s(%s)->%s" % (x.get("op"), x.get("aid", x.get("acct", x.get("part", ""))), x.get("res"))) if x["ev"] == "op" else x["ev"]
+    for ln in rejected:
+        sub = []
+        k = ln
+        while k >= 1:
+            sub.insert(0, json.loads(lines[k - 1]))
+            if sub[0]["ev"] == "reset":
+                break
+            k -= 1
+        e = sub[-1]
+        content = lambda x: "jobs %s / time %s" % ([(j["k"], j["at"], "evict" if j["evict"] else "") for j in x.get("jobs", [])][:8],
+                                                    [(j["k"][-14:], j["aid"]) for j in x.get("time", [])][:8])
+        what = "crolt, scenario %s seed %s (partitions %s, ttl %sus, jitter %sus): line %d %s [%d..%d us] fires %s leaves %s; before: %s; history: %s" % (
+            sub[0].get("kind"), sub[0].get("seed"), sub[0].get("parts"), sub[0].get("ttl"), sub[0].get("jitter"), len(sub), brief(e),
+            e.get("t0", 0), e.get("t1", 0), e.get("fires"), content(e), content(sub[-2]) if len(sub) > 2 else "empty",
+            " ".join(brief(x) for x in sub[1:-1][-10:]))
+        run.violation(what[:1800], {"trace": sub}, stage="crolt")
+    st = {"hook_calls": sum(i["hook_calls"] for k, i, o in rs if k == "ok"), "work_passes": 0, "fires": 0, "passes_at_limit": 0, "reopens": 0, "concurrent_rounds": 0}
+    for x in lines:
+        if '"op":"work"' in x:
+            st["work_passes"] += 1
+            nf = len(json.loads(x)["fires"]); st["fires"] += nf; st["passes_at_limit"] += nf >= 10
+        elif '"op":"reopen"' in x:
+            st["reopens"] += 1
+        elif '"op":"conc"' in x:
+            st["concurrent_rounds"] += 6
+    if st["hook_calls"] == 0 or st["fires"] == 0:
+        raise Broken("crolt driver exercised nothing: %s" % st)
+    run.cov["crolt"] = st
+    run.assumptions += ["Bolt-backed cron: 2-4 partitions, accounts of 1-11 characters, TTL 200-500 ms, MaxJitter 0/150/300 ms, one-shot delays 5-420 ms, "
+                        "recurring jobs every second; work passes are called by the driver (Cron.work in a Bolt update, as WorkLoops does); the jobs' "
+                        "requests go to a local HTTP endpoint that records their arrival; a recurring job's due time must be a whole second plus a "
+                        "jitter in [0, MaxJitter] (the design after the jitter repair)"]
+
+def c16(run):
+    cron_stage(run)
+    crolt_stage(run)
+    return run.finish(rule="in-memory cron: every interleaving of Add/Rem/replace, the loop, the running functions and suspend/resume for 2 ids "
+                           "x 3 jobs x 4 ticks (CronMC); timed scenarios of the real service, its steps reported by hook points under its lock, "
+                           "validated line by line by TLC against Cron.tla (CronTrace): pops only of the head and only when due, one function "
+                           "start per pop, no insertion of a removed/replaced job, timeline = model after every snapshot, nothing overdue at the end. "
+                           "Bolt-backed cron: every interleaving of 2 clients' Add/Delete and the work loop on 2 jobs x 5 ticks (CroltMC); histories "
+                           "of the real service over a Bolt file (sequential with reopen points between operations, bursts of jobs coming due together, "
+                           "rounds of concurrent Adds/Deletes with workers going), the complete bucket content after every operation validated by TLC "
+                           "(CroltTrace): buckets agree key for key, each operation is the transition Crolt allows, a due job fires once and not early")
+
 def c17(run):
     drv = run.build("concdrv", race=True)
     conc_rounds(run, drv, ["-seed", str(run.seed), "-rounds", "300" if run.tier == "quick" else "2000", "-clients", "4", "-ops", "3",
@@ -483,7 +619,7 @@ def c03(run):
                            "indexed and linear state, through Location.Query; TLC compares the returned bindings as a BAG with Query!Eval; "
                            "states/transitions: QueryMC (algebraic laws of Eval on all trees up to depth 1/2 x all fact subsets)")
 
-CHECKS = {"C11": c11, "C12": c12, "C13": c13, "C15": c15, "C06": c06, "C14": c14, "C17": c17, "C18": c18, "C01": c01, "C03": c03, "C04": c04, "C05": c05, "C02": c02, "C07": c07, "C08": c08, "C09": c09, "C10": c10, "C19": c19, "C20": c20}
+CHECKS = {"C16": c16, "C11": c11, "C12": c12, "C13": c13, "C15": c15, "C06": c06, "C14": c14, "C17": c17, "C18": c18, "C01": c01, "C03": c03, "C04": c04, "C05": c05, "C02": c02, "C07": c07, "C08": c08, "C09": c09, "C10": c10, "C19": c19, "C20": c20}
 
 def replay(run, path):
     rejected, out = run.validate("EngineTrace.tla", "EngineTrace.cfg", path, "replay")
